@@ -5,7 +5,7 @@ from . import common, genops
 from .common import viol
 
 ID = "C17"
-RUNS = {"quick": 1500, "thorough": 100000}
+RUNS = {"quick": 1500, "thorough": 60000}
 REAL = common.REAL
 SIMULATED = common.SIMULATED
 ASSUMPTIONS = [
